@@ -2,6 +2,7 @@ package main
 
 import (
 	"fmt"
+	"go/token"
 	"go/types"
 	"os"
 	"strings"
@@ -287,6 +288,10 @@ func runC11(p *Program, r *Result) {
 				continue
 			}
 			if _, isDbg := in.(*ssa.DebugRef); isDbg {
+				continue
+			}
+			// a comparison (dst == nil) writes nothing
+			if bo, isBin := in.(*ssa.BinOp); isBin && (bo.Op == token.EQL || bo.Op == token.NEQ) {
 				continue
 			}
 			n++
